@@ -468,7 +468,7 @@ func init() {
 	Checks["C13"] = func(r *evid.Run) {
 		registerStandardExt()
 		c13stats = NewStats()
-		dl := deadline(r, 50*time.Second, 15*time.Minute)
+		dl := deadline(r, 120*time.Second, 15*time.Minute)
 		b := 2
 		if thorough(r) {
 			b = 3
